@@ -348,6 +348,88 @@ def main(tier_: str) -> int:
                         lines.append({'ev': 'field', 'box': lb.name, 'field': fname, 'value_class': f'bytes of {f.name} ({n} mutations)' +
                                       (f' failing offset:value {bad[:6]}' if bad else ''), 'eq': 0 if bad else 1})
         out.coverage['legal_byte_mutations'] = nmut
+        # ---- legal structural edits written into stored trees (byte level) -----------------------------
+        # an empty (header-only, 8-byte) box - free, skip, an unknown 4CC, an empty udta - is a legal child of any container;
+        # it is inserted as first / last child of every container of every stored moov, the sizes of the ancestors adjusted,
+        # and the result (still a well-formed tree by the independent walker) must round-trip
+        import struct as _st
+        seen_moov: set[bytes] = set()
+        nstruct = 0
+        for f in files:
+            data = f.read_bytes()
+            try:
+                pw0 = Parsed(data)
+            except Exception:      # noqa: BLE001
+                continue
+            mv = next((b for b in pw0.top if b.name == 'moov'), None)
+            if mv is None or data[mv.pos:mv.end] in seen_moov:
+                continue
+            seen_moov.add(data[mv.pos:mv.end])
+            base = data[:mv.end]
+            rel = str(f.relative_to(REPO / 'tests' / 'fixtures'))
+
+            def rec(b, anc):
+                nonlocal nstruct
+                if not b.children:
+                    return
+                chain = anc + [b]
+                for where, at in (('first', b.children[0].pos), ('last', b.end)):
+                    for nm in ((b'free', b'skip', b'zzzz', b'udta') if where == 'last' else (b'free',)):
+                        m = bytearray(base)
+                        m[at:at] = _st.pack('>I4s', 8, nm)
+                        for x in chain:
+                            m[x.pos:x.pos + 4] = _st.pack('>I', _st.unpack('>I', m[x.pos:x.pos + 4])[0] + 8)
+                        raw = bytes(m)
+                        if not Parsed(raw).well_formed():
+                            continue
+                        for lz in (False, True):
+                            nstruct += 1
+                            err = ''
+                            try:
+                                w = load(raw, 'rw', lz)
+                                ob = io.BytesIO()
+                                w.encode(ob)
+                                eq = 1 if ob.getvalue() == raw else 0
+                                if not eq:
+                                    err = f'{len(raw)} bytes in, {len(ob.getvalue())} bytes out'
+                            except Exception as e:      # noqa: BLE001
+                                eq, err = 0, f'{type(e).__name__}: {e}'[:120]
+                            lines.append({'ev': 'rt', 'file': f'{rel} + empty {nm.decode()} as {where} child of ' + '/'.join(x.name for x in chain),
+                                          'atom': 'moov', 'mode': 'lazy' if lz else 'eager', 'eq': eq, 'err': err, 'len': len(raw), 'idx': 0})
+                for c in b.children:
+                    rec(c, chain)
+            rec(mv, [])
+        out.coverage['legal_structural_insertions'] = nstruct
+        # ---- header forms (mp4.py Mp4Atom.parse: size == 0 "to the end of the file", size == 1 + 64-bit largesize, uuid types) -----
+        # the same payloads behind each legal form of a box header, as the last top-level box after a stored init segment
+        a1 = (REPO / 'tests' / 'fixtures' / 'bbb' / 'bbb_a1.mp4').read_bytes()
+        pa1 = Parsed(a1)
+        mf0 = next(b for b in pa1.top if b.name == 'moof')
+        head = a1[:mf0.pos]
+        forms: list[tuple[str, bytes]] = []
+        for typ, payload in ((b'free', b''), (b'free', b'\0' * 9), (b'mdat', b'x' * 100), (b'zzzz', b'\1' * 5)):
+            forms.append((f'compact {typ.decode()}[{len(payload)}]', _st.pack('>I4s', 8 + len(payload), typ) + payload))
+            forms.append((f'size=0 {typ.decode()}[{len(payload)}]', _st.pack('>I4s', 0, typ) + payload))
+            forms.append((f'largesize {typ.decode()}[{len(payload)}]', _st.pack('>I4sQ', 1, typ, 16 + len(payload)) + payload))
+        forms.append(('uuid unknown[4]', _st.pack('>I4s', 8 + 16 + 4, b'uuid') + bytes(range(16)) + b'abcd'))
+        forms.append(('uuid unknown[0]', _st.pack('>I4s', 8 + 16, b'uuid') + bytes(range(16))))
+        for label, tail in forms:
+            raw = head + tail
+            for lz in (False, True):
+                err = ''
+                try:
+                    w = load(raw, 'rw', lz)
+                    ob = io.BytesIO()
+                    w.encode(ob)
+                    eq = 1 if ob.getvalue() == raw else 0
+                    if not eq:
+                        got = ob.getvalue()
+                        err = f'{len(raw)} bytes in, {len(got)} bytes out; header written as {got[len(head):len(head) + 8].hex()}'
+                except Exception as e:      # noqa: BLE001
+                    eq, err = 0, f'{type(e).__name__}: {e}'[:120]
+                lines.append({'ev': 'rt', 'file': f'bbb/bbb_a1.mp4#init + last box with header form {label}', 'atom': label.split()[1].split('[')[0],
+                              'mode': 'lazy' if lz else 'eager', 'eq': eq, 'err': err, 'len': len(raw), 'idx': 0})
+        out.coverage['header_forms'] = len(forms)
         for payload in (b'0x48656c6c6f', b'0x', b'0X4142', b"b'00'", b'hx=4142', b'b64=QUJD'):
             def mk_em(payload=payload):
                 return mp4.EventMessageBox(version=0, flags=0, scheme_id_uri='urn:x', value='v', timescale=100, presentation_time_delta=1,
